@@ -50,6 +50,12 @@ func main() {
 		}
 		debugLoops(P)
 		debugIterDel(P)
+		debugWrapNil(P)
+		ds, tot := droppedErrors(P, "pk", "ck", "provider", "consumer", "ccv")
+		for _, d := range ds {
+			fmt.Printf("dropped-error %s %s -> %s\n", P.InstrPos(d), shortName(ssaFuncName(topFn(d.Parent()))), shortName(calleeName(d)))
+		}
+		fmt.Printf("%d calls with an error result, %d dropped\n", tot, len(ds))
 	case "check":
 		fs := flag.NewFlagSet("check", flag.ExitOnError)
 		prop := fs.String("property", "", "property id (or 'all')")
